@@ -42,11 +42,14 @@ Die ==
     /\ live' = {}
 
 \* ------------------------------------------------------------ handshake
-Line(good) ==
+\* kind: "good" | "other" (another protocol) | the protocol text wrapped in white space: "crlf", "spaces", "tab", "nbsp" -
+\* the line is compared as it is, so all of these are refused
+LineKinds == {"good", "other", "crlf", "spaces", "tab", "nbsp"}
+Line(kind) ==
     /\ Budget /\ hs = "line"
-    /\ IF good THEN hs' = "request" /\ UNCHANGED <<live, ended>> ELSE Die
+    /\ IF kind = "good" THEN hs' = "request" /\ UNCHANGED <<live, ended>> ELSE Die
     /\ UNCHANGED <<wrote, runs>>
-    /\ Step([op |-> "line", good |-> good])
+    /\ Step([op |-> "line", good |-> (kind = "good"), kind |-> kind])
 
 \* kind: "ok" | "noversion" (refused) | "badcomp" (unknown compression: ignored)
 \*       | "notrequest" (some other message first) | "disguised" (another message that also carries a connect request) | "garbage" (not a message) | "malformed" (see Hostile)
@@ -105,7 +108,7 @@ Hostile(kind) ==
 \*   past the end of the value; the harness cycles through the catalogue)
 HostileKinds == {"unknowncode", "nestedbatch", "garbage", "badmessage", "truncated", "oversized", "eof", "handshakeagain", "malformed"}
 
-Next == \/ \E g \in BOOLEAN : Line(g)
+Next == \/ \E k \in LineKinds : Line(k)
         \/ \E k \in {"ok", "badcomp", "noversion", "notrequest", "disguised", "garbage", "malformed"} : Request(k)
         \/ \E i \in Ids : Open(i) \/ OpenCloseBatch(i) \/ Close(i) \/ Traffic("data", i) \/ Traffic("window", i)
         \/ \E k \in HostileKinds : Hostile(k)
